@@ -344,6 +344,11 @@ def _plugin_cases(tier):
             for st in ("plain", "comment") if enc == "bom" else ("plain",):
                 for F in (list(CATS), ["fix"], []):
                     cases.append({"kind": "encoding", "enc": enc, "names": p, "style": st, "F": F})
+    # the test file is reached through a symbolic link (a linked file, a linked directory given on the command line)
+    for link in ("file", "dir", "dir-cwd-inside"):
+        for p in pairs + [["create", "fixs", "trimb", "upd"], ["fixl", "create", "create"], ["trimin", "fixd", "create"]]:
+            for F in (list(CATS), ["create", "fix"]):
+                cases.append({"kind": "symlink", "link": link, "names": p, "style": "plain", "F": F})
     for enc in ("latin-1", "cp1252", "ascii"):
         for p in (["unencfix", "fixs"], ["fixl", "unenccreate"], ["unencfix"], ["create", "unenccreate", "trimb"]):
             for F in (list(CATS), ["create", "fix"]):
@@ -365,6 +370,8 @@ def _plugin_file(c):
         return src.replace("\n", c["nl"])
     if kind == "fmtfail":
         return build_file([(c["names"], "plain"), (["none"], "comment")])
+    if kind == "symlink":
+        return build_file([(c["names"], c["style"]), (["none"], "comment")])
     if kind == "locale":
         return build_file([(c["names"], c["style"]), (["none"], "comment")])
     if kind == "unenc":
@@ -436,6 +443,34 @@ def _judge_plugin(c):
                                 "if mode == 'exit0-garbage':\n    sys.stdout.write('def (:\\n'); sys.exit(0)\n"
                                 "if mode == 'exit3-full':\n    sys.stdout.write(text); sys.exit(3)\n")
     codec = {"bom": "utf-8-sig", "latin-1": "latin-1", "cp1252": "cp1252", "ascii": "ascii"}[c["enc"]] if c["kind"] in ("encoding", "unenc") else "utf-8"
+    if c["kind"] == "symlink":
+        import os
+
+        real = "shared/impl_something.py" if c["link"] == "file" else "shared/tests/test_something.py"
+        d = plugin.mk_project({real: src, "pyproject.toml": pp})
+        if c["link"] == "file":
+            os.symlink(os.path.join("shared", "impl_something.py"), os.path.join(d, "test_something.py"))
+            cwd, args = d, []
+        else:
+            os.symlink(os.path.join("shared", "tests"), os.path.join(d, "tests"))
+            cwd, args = (d, ["tests"]) if c["link"] == "dir" else (os.path.join(d, "tests"), [])
+        try:
+            r = plugin.session(cwd, ["--inline-snapshot=" + ",".join(c["F"])] + args)
+            full_listing = plugin.listing(d)
+            raw = full_listing[real]
+        finally:
+            plugin.cleanup()
+        ctx = {"src": src, "after": raw.decode("utf-8", "replace"), "listing": full_listing}
+        if plugin.internal_error(r["out"]) or r["rc"] not in (0, 1):
+            return ("internal-error", "rc=%s %s" % (r["rc"], r["out"][-700:])), ctx
+        stray = [k for k in full_listing if k.endswith(".py") and k not in (real, "test_something.py")]
+        if stray:
+            return ("other-python-file-written", str(stray)), ctx
+        cats = [SITES[n][3] for n in c["names"]] + [None]
+        import black
+
+        v = check_file(src, ctx["after"], cats, c["F"], black.format_str(src, mode=black.FileMode()) == src)
+        return v, ctx
     d = plugin.mk_project(dict({"test_something.py": src.encode(codec), "pyproject.toml": pp}, **extra))
     try:
         if c["kind"] == "locale":
